@@ -115,7 +115,7 @@ func c09Ops() []c09op {
 			if gerr != nil {
 				return "globals error " + gerr.Error()
 			}
-			t, err := soy.NewBundle().AddGlobalsMap(w.common).AddGlobalsMap(g).AddTemplateString("ind.soy", "{namespace ind}\n/** @param x */\n{template .t}\n{msg desc=\"d\"}a{$x}b<b>{$x.yZ}</b>{/msg}{['k': $x, 'j': 1]}{let $b}[{$x.yZ}]{/let}{$b}{IND_A}{IND_B}{COMMON_ONE}{COMMON_NAME}\n{/template}\n").CompileToTofu()
+			t, err := soy.NewBundle().AddGlobalsMap(w.common).AddGlobalsMap(g).AddTemplateString("ind.soy", "{namespace ind}\n/** @param x */\n{template .t}\n{msg desc=\"d\"}a{$x}b<b>{$x.yZ}</b>{/msg}{['k': $x, 'j': 1]}{let $b}[{$x.yZ}]{/let}{$b}{IND_A}{IND_B}{COMMON_ONE}{COMMON_NAME}{css IND_B, cls}\n{/template}\n").CompileToTofu()
 			if err != nil {
 				return "compile error " + err.Error()
 			}
@@ -225,6 +225,17 @@ func checkC09(c *Ctx) {
 				var names []string
 				for _, k := range idx {
 					names = append(names, ops[k].name)
+				}
+				// compilation has an order of magnitude more instrumented points than a render (and its
+				// scanner threads add a yield point per token): thinner yields at bound 2 in the quick tier.
+				if !c.Thorough() {
+					nCompile := 0
+					for _, n := range names {
+						if strings.HasPrefix(n, "compile ") {
+							nCompile++
+						}
+					}
+					mod = []int{32, 48, 96}[nCompile]
 				}
 				cs := c09case{Ops: names, Cold: true}
 				if !c.Instr() {
